@@ -367,36 +367,40 @@ func VerifHarness_C06_O6() {
 	verifReach("end")
 }
 
-// C06/O8 — liveness across a LEAVE.  Four real cores; a leave request of
-// validator 3 (signed by it) goes through consensus, validator 3 stops once it
-// has delivered the block carrying its request; the three remaining validators
+// C06/O8 — liveness across a LEAVE.  Three real cores (the supermajority drops
+// from 3 to 2 with the set); a leave request of the last validator (signed by
+// it) goes through consensus, that validator keeps gossiping until its last
+// consensus round reached its removal round (as core.leave waits) and then stops; the two remaining validators
 // (all of the new set) go on gossiping through the round at which the change
 // becomes effective, then fairly without new submissions.  Everything they
 // accepted, and every transaction carried by an event they hold - including
 // the events created in the last rounds of the OLD set, whose round-received
 // must be decided with the thresholds of the rounds that receive them - is
-// committed exactly once by all three, and they return to idle.
+// committed exactly once by both, and they return to idle.
 func VerifHarness_C06_O8() {
-	s := verifNewSys(4)
-	itx := hg.NewInternalTransactionLeave(*s.peers[3])
+	const n = 3
+	const lv = n - 1 // the leaver
+	s := verifNewSys(n)
+	itx := hg.NewInternalTransactionLeave(*s.peers[lv])
 	ih, _ := itx.Body.Hash()
-	itx.Signature = verifSignature(verifKey(3), ih, true)
+	itx.Signature = verifSignature(verifKey(lv), ih, true)
 	at := []int{4, 13}[verifChoice("leaveSubmittedAt", 2)]
 	gone := false
 	for st := 0; st < 160; st++ {
-		to := st % 4
-		from := (to + 1 + (st/4)%3) % 4
+		to := st % n
+		from := (to + 1 + (st/n)%(n-1)) % n
 		if st == at {
-			s.nodes[3].c.addInternalTransaction(itx)
+			s.nodes[lv].c.addInternalTransaction(itx)
 		}
 		if !gone {
-			for _, b := range s.nodes[3].blocks {
-				if len(b.InternalTransactions()) > 0 {
-					gone = true
-				}
+			// as core.leave does: the leaver keeps gossiping until its last
+			// consensus round reached the round at which it is removed
+			c := s.nodes[lv].c
+			if c.removedRound > 0 && c.hg.LastConsensusRound != nil && *c.hg.LastConsensusRound >= c.removedRound {
+				gone = true
 			}
 		}
-		if gone && (to == 3 || from == 3) {
+		if gone && (to == lv || from == lv) {
 			continue
 		}
 		if err := s.pull(from, to, -1); err != nil {
@@ -415,6 +419,6 @@ func VerifHarness_C06_O8() {
 	if s.nodes[0].c.hg.Store.LastRound() >= rr+6 {
 		verifReach("gossip-went-on-beyond-the-effective-round")
 	}
-	s.fairPhaseAndCheck([]int{0, 1, 2}, 12)
+	s.fairPhaseAndCheck([]int{0, 1}, 12)
 	verifReach("end")
 }
